@@ -5,16 +5,19 @@
 //! Knobs and observers used by the out-of-tree verification harness.
 
 use std::cell::Cell;
+use std::sync::atomic::AtomicBool;
+use std::sync::atomic::Ordering;
 
 use crate::values::Value;
 use crate::values::ValueLike;
 use crate::values::types::bigint::StarlarkBigInt;
 
+static POISON: AtomicBool = AtomicBool::new(false);
+
 thread_local! {
     static GC_EVERY: Cell<u64> = const { Cell::new(0) };
     static SAFEPOINTS: Cell<u64> = const { Cell::new(0) };
     static FORCED: Cell<u64> = const { Cell::new(0) };
-    static POISON: Cell<bool> = const { Cell::new(false) };
 }
 
 /// Collect at every `k`-th GC safepoint of this thread (0 = default threshold behaviour).
@@ -29,13 +32,13 @@ pub fn gc_counters() -> (u64, u64) {
     (SAFEPOINTS.with(|c| c.get()), FORCED.with(|c| c.get()))
 }
 
-/// Overwrite arena memory with a poison pattern just before it is released (this thread).
+/// Overwrite arena memory with a poison pattern just before it is released (process-wide).
 pub fn set_poison(on: bool) {
-    POISON.with(|c| c.set(on));
+    POISON.store(on, Ordering::SeqCst);
 }
 
 pub(crate) fn poison_enabled() -> bool {
-    POISON.try_with(|c| c.get()).unwrap_or(false)
+    POISON.load(Ordering::SeqCst)
 }
 
 pub(crate) fn gc_safepoint() -> bool {
